@@ -74,6 +74,11 @@ func init() {
 				if tx.End != "auto" && s > 0 && (st.Kind == "insert" || st.Kind == "update" || st.Kind == "delete") && r.IntN(8) == 0 {
 					st.Fail = 1 + r.IntN(3)
 				}
+				if tx.End != "auto" && s > 0 && st.Fail == 0 && r.IntN(12) == 0 {
+					// a statement of the transaction addresses a second s3db table of the connection that refuses
+					// writes (read-only): it fails in that table's xBegin, the transaction goes on
+					st.Kind = "other-table-refused"
+				}
 				tx.Stmts = append(tx.Stmts, st)
 			}
 			if r.IntN(4) == 0 {
@@ -129,6 +134,17 @@ func runC05(x *Exec) {
 				_, fatal = c.Exec("CREATE TABLE n(k PRIMARY KEY, " + strings.Join(p.Cols, ", ") + ") WITHOUT ROWID")
 			}
 		})
+		var t2 string
+		for _, tx := range p.Txns {
+			for _, st := range tx.Stmts {
+				if st.Kind == "other-table-refused" && t2 == "" && fatal == nil {
+					w.Solo(c, func() {
+						t2 = w.TableName("ro")
+						_, fatal = c.Exec(c.CreateSQL(t2, TableOpts{Prefix: "q", Columns: "k primary key, a", ReadOnly: true}))
+					})
+				}
+			}
+		}
 		if fatal != nil {
 			x.Fail("C05-unexpected-error", "setup: %v", fatal)
 			return
@@ -270,6 +286,20 @@ func runC05(x *Exec) {
 						run("DELETE FROM {T} WHERE k=?", st.Key)
 					case "select":
 						if !compare(sd) {
+							return
+						}
+						continue
+					case "other-table-refused":
+						// the refused statement is no write of the transaction: rows, write time and what COMMIT
+						// publishes are as if it had not been issued
+						_, oerr := c.Exec("INSERT INTO "+t2+"(k,a) VALUES (?,?)", st.Key, st.Val)
+						x.Check()
+						if oerr == nil {
+							x.Fail("C05-unexpected-error", "%s: a write to the read-only table %s was accepted", sd, t2)
+							return
+						}
+						x.Probe("refused-write-to-second-table-inside-transaction")
+						if !compare(sd + fmt.Sprintf(" (err=%v)", oerr)) {
 							return
 						}
 						continue
